@@ -48,6 +48,14 @@
 (*                         vertex mask to the base stations as well (base.py:279-285): with a  *)
 (*                         single base station the shape check fails (cell_object.py:163-167)  *)
 (*                         after the receivers' copy was made: an unlinked orphan copy stays   *)
+(*   RelinkKeepsCachedPartner  a link setter fills the cache of the linking side only               *)
+(*                         (base.py:473, 514; direct_current.py:301, 383): an entity taken over *)
+(*                         from a previous partner keeps answering its getter from the stale     *)
+(*                         cache - the new pair is not mutually consistent until re-open         *)
+(*   RelinkLeavesSharedDictionary  EM partners hold the same metadata dictionary object           *)
+(*                         (base.py:461-465) and edit_em_metadata changes it in place             *)
+(*                         (base.py:356-362): when an entity links to a new partner, its former   *)
+(*                         partner's live metadata silently becomes the new pair's (its file not) *)
 (* The specification is explored with Deviations = {} (ideal); every transition additionally   *)
 (* exports, as last.alt, the state the same action yields with all KnownDevs switched on, so   *)
 (* that the harness can recognise exactly these behaviours and nothing else.                   *)
@@ -66,6 +74,7 @@ CONSTANTS
     BadValues,   \* TRUE: also try one rejected value for unit / input_type / channels / loop_radius
     ValuesPerOp, \* 1, 2 or 3: how many of the accepted values of a setter are tried
     EditWhen,    \* "always" | "copied": "copied" = edits only once all MaxCopies copies exist (isolation of copies)
+    Extras,      \* 0: originals A, B ; 1: a second A (entity 3) ; 2: a second A and a second B (entities 3, 4): re-linking
     Deviations   \* {} = ideal
 
 VARIABLES ents, step, nedits, ncopies, nreopens, focus, last
@@ -73,7 +82,8 @@ vars == <<ents, step, nedits, ncopies, nreopens, focus, last>>
 vw == <<ents>>        \* VIEW: counters, focus and last never multiply states
 
 KnownDevs == {"WaveformAliased", "LinkFromTxDropsTxId", "InputTypeSetterMLFEM", "UnitSetterTIP",
-              "LoopRadiusNoneHalfApplied", "TipperSingleBaseMaskedCopy"}
+              "LoopRadiusNoneHalfApplied", "TipperSingleBaseMaskedCopy", "RelinkKeepsCachedPartner",
+              "RelinkLeavesSharedDictionary"}
 
 \* ------------------------------------------------------------------ class pair traits
 Family     == IF Pair = "DC" THEN "dc" ELSE "em"
@@ -213,6 +223,7 @@ Settle(E) == [i \in DOMAIN E |-> [E[i] EXCEPT !.ptr = IF @ # 0 THEN @ ELSE Resol
 \* depends on it.
 TrackAlias == \/ IsTEM /\ ({"waveform", "timing_mark"} \cap Ops # {})
               \/ MovingLoop /\ "loop_radius" \in Ops
+              \/ Extras > 0 /\ Family = "em"
 Rejoin(E, S, C) == [x \in DOMAIN E |-> IF ~TrackAlias THEN E[x]
                                         ELSE IF x \in C THEN [E[x] EXCEPT !.al = C]
                                         ELSE [E[x] EXCEPT !.al = @ \ S]]
@@ -224,12 +235,16 @@ InitEnts ==
     LET ma == IF Family = "dc" THEN NoMeta
               ELSE [OwnMeta(1, "A") EXCEPT !.tx = IF LargeLoop THEN 1 ELSE 0]   \* rx.tx_id_property = ... (base.py:799-800)
         mb == IF Family = "dc" THEN NoMeta ELSE OwnMeta(2, "B")
-    IN IF HasPartner
-       THEN <<MkEnt(1, "A", ma, AllStations),
-              MkEnt(2, "B", mb, IF Grouped THEN {1, 2} ELSE IF Pair = "TIP1" THEN {1} ELSE AllStations)>>
-       ELSE <<MkEnt(1, "A", ma, AllStations)>>
+        gb == IF Grouped THEN {1, 2} ELSE IF Pair = "TIP1" THEN {1} ELSE AllStations
+        base == <<MkEnt(1, "A", ma, AllStations), MkEnt(2, "B", mb, gb)>>
+        a2 == MkEnt(3, "A", IF Family = "dc" THEN NoMeta ELSE [OwnMeta(3, "A") EXCEPT !.tx = IF LargeLoop THEN 3 ELSE 0],
+                    AllStations)
+        b2 == MkEnt(4, "B", IF Family = "dc" THEN NoMeta ELSE OwnMeta(4, "B"), gb)
+    IN IF ~HasPartner THEN <<MkEnt(1, "A", ma, AllStations)>>
+       ELSE IF Extras = 0 THEN base ELSE IF Extras = 1 THEN Append(base, a2) ELSE Append(Append(base, a2), b2)
+NOrig == IF ~HasPartner THEN 1 ELSE 2 + Extras
 
-NoLast == [act |-> "Init", i |-> 0, op |-> "-", val |-> "-", how |-> "-", m |-> "-", dest |-> "-",
+NoLast == [act |-> "Init", i |-> 0, j |-> 0, op |-> "-", val |-> "-", how |-> "-", m |-> "-", dest |-> "-",
            out |-> "ok", alt |-> <<>>, altout |-> "ok", dev |-> "-"]
 
 Init == /\ ents = InitEnts
@@ -237,31 +252,48 @@ Init == /\ ents = InitEnts
         /\ focus = "none"
         /\ last = NoLast
 
-\* ------------------------------------------------------------------ LinkFrom(s)
+\* ------------------------------------------------------------------ LinkFrom(s, o)
 \*   EM: s.receivers = o / s.transmitters = o / s.base_stations = o  (base.py:466-474, 502-515; tipper.py:76-94):
 \*       the setter caches o, records o's uid in s's metadata, stores it, then hands the *same* dictionary to o and
 \*       stores it there too (base.py:442-449): o's own parameters are replaced by s's.
 \*   DC: both get {"Current Electrodes", "Potential Electrodes"} (direct_current.py:286-305, 367-386).
-LinkRes(E, s, dev) ==
-    LET o  == 3 - s
-        m0 == IF Family = "dc" THEN SetP(SetP([NoMeta EXCEPT !.has = TRUE], E[s].role, s), E[o].role, o)
+\*   Re-linking (Extras > 0): o may already belong to somebody else, s may have had another partner.  The new pair
+\*   must be consistent: both ids on both, each resolves the other.  An abandoned partner keeps what it recorded
+\*   (it still names - and resolves - the entity that was taken from it); that is tolerated, it is not a pair any more.
+LinkRes(E, s, o, dev) ==
+    LET m0 == IF Family = "dc" THEN SetP(SetP([NoMeta EXCEPT !.has = TRUE], E[s].role, s), E[o].role, o)
               ELSE SetP(E[s].live, E[o].role, o)
         \* the receivers' "Tx ID property" entry survives the link whichever side it is made from
         m  == IF LargeLoop /\ E[s].role = "B" /\ "LinkFromTxDropsTxId" \notin dev
               THEN [m0 EXCEPT !.tx = E[o].live.tx] ELSE m0
-        E1 == [E EXCEPT ![s].live = m, ![s].file = m, ![s].ptr = IF Family = "dc" THEN @ ELSE o,
-                        ![o].live = m, ![o].file = m]
+        \* as built the taken entity keeps a filled cache
+        po == IF "RelinkKeepsCachedPartner" \in dev /\ E[o].ptr # 0 THEN E[o].ptr ELSE s
+        \* as built whoever still holds s's dictionary object (its former partner) sees the new content, unsaved
+        sh == IF "RelinkLeavesSharedDictionary" \in dev /\ Family = "em" THEN E[s].al \ {s, o} ELSE {}
+        E1 == [x \in DOMAIN E |->
+                 IF x = s THEN [E[x] EXCEPT !.live = m, !.file = m, !.ptr = o]
+                 ELSE IF x = o THEN [E[x] EXCEPT !.live = m, !.file = m, !.ptr = po]
+                 ELSE IF x \in sh THEN [E[x] EXCEPT !.live = m]
+                 ELSE E[x]]
     IN Settle(Rejoin(E1, {s, o}, E[s].al \cup {s, o}))
 
-LinkFrom(s) ==
-    /\ HasPartner /\ s \in {1, 2}
-    /\ LET E2 == LinkRes(ents, s, Deviations)
-           EA == LinkRes(ents, s, KnownDevs)
+LinkFrom(s, o) ==
+    /\ HasPartner /\ s \in 1..NOrig /\ o \in 1..NOrig
+    /\ ents[s].role # ents[o].role
+    /\ LET E2 == LinkRes(ents, s, o, Deviations)
+           EA == LinkRes(ents, s, o, KnownDevs)
        IN /\ ents' = E2
-          /\ last' = [NoLast EXCEPT !.act = "LinkFrom", !.i = s,
+          /\ last' = [NoLast EXCEPT !.act = "LinkFrom", !.i = s, !.j = o,
                                     !.alt = IF EA = E2 THEN <<>> ELSE EA,
-                                    !.dev = IF EA = E2 THEN "-" ELSE "LinkFromTxDropsTxId"]
+                                    !.dev = IF EA = E2 THEN "-"
+                                            ELSE IF \E x \in DOMAIN ents \ {s, o} : EA[x] # E2[x]
+                                                 THEN "RelinkLeavesSharedDictionary"
+                                            ELSE IF EA[o].ptr # E2[o].ptr THEN "RelinkKeepsCachedPartner"
+                                            ELSE "LinkFromTxDropsTxId"]
     /\ UNCHANGED <<nedits, ncopies, nreopens, focus>>
+
+\* an entity whose partner was taken over by somebody else: it still points at it, the partner does not point back
+Abandoned(E, i) == E[i].ptr # 0 /\ E[E[i].ptr].ptr # i
 
 \* ------------------------------------------------------------------ Edit(i, op, val)
 \*   every setter ends in edit_em_metadata (base.py:333-351): the new dictionary is stored on the entity and on
@@ -299,6 +331,7 @@ RefusedRes(E, i, op, val, dev) ==
 Edit(i, op, val) ==
     /\ nedits < MaxEdits
     /\ ents[i].live.has /\ Family = "em"
+    /\ ~Abandoned(ents, i)              \* what an edit through an abandoned partner should do is left open
     /\ (EditWhen = "copied") => ncopies >= MaxCopies
     /\ (Focus /\ focus # "none") => GroupOf(op) = focus
     /\ LET ref == EditRefused(op, val, Deviations)
@@ -361,6 +394,7 @@ CopyBreaks(i, m, dev) == /\ Pair = "TIP1" /\ "TipperSingleBaseMaskedCopy" \in de
 
 Copy(i, how, m, dest) ==
     /\ ncopies < MaxCopies
+    /\ ~Abandoned(ents, i)
     /\ (how = "plain") <=> (m = "-")
     /\ (Pair = "TIP1" /\ ents[i].role = "B") => m = "-"     \* a single vertex has no segment to select (cell_object.py:67-75)
     /\ LET none == CopySel(i, m) = {}                     \* copy_from_extent returns None (entity_container.py:149-151)
@@ -394,7 +428,7 @@ Reopen ==
 
 \* ------------------------------------------------------------------ next-state relation
 Act ==
-    \/ \E s \in {1, 2} : LinkFrom(s)
+    \/ \E s \in 1..NOrig : \E o \in 1..NOrig : LinkFrom(s, o)
     \/ \E i \in DOMAIN ents : \E op \in Ops : \E v \in Vals(op) : Edit(i, op, v)
     \/ \E i \in DOMAIN ents : \E hd \in CopyModes :
           LET how  == CASE hd \in {"plain-same", "plain-other"} -> "plain"
@@ -413,15 +447,15 @@ Spec == Init /\ [][Next]_vars
 
 \* ------------------------------------------------------------------ the property (C20)
 Ids == DOMAIN ents
-Linked(i) == ents[i].ptr # 0
+Linked(i) == ents[i].ptr # 0 /\ ents[ents[i].ptr].ptr = i      \* a pair: each resolves the other
 RoleA(i, j) == IF ents[i].role = "A" THEN i ELSE j
 RoleB(i, j) == IF ents[i].role = "B" THEN i ELSE j
 
 \* partners point at each other, live in the same workspace and have complementary roles
-Mutual == \A i \in Ids : Linked(i) =>
+Mutual == \A i \in Ids : ents[i].ptr # 0 =>
             LET p == ents[i].ptr IN
             /\ p \in Ids /\ p # i
-            /\ ents[p].ptr = i
+            /\ (Extras = 0 => ents[p].ptr = i)            \* without re-linking nobody is ever abandoned
             /\ ents[p].ws = ents[i].ws
             /\ ents[p].role = Other(ents[i].role)
 
@@ -433,7 +467,7 @@ BothIds == \A i \in Ids : Linked(i) =>
             /\ ents[i].file.pa = RoleA(i, p) /\ ents[i].file.pb = RoleB(i, p)
 
 \* once a link has been made from either side, both originals resolve each other
-LinkSticks == [][(last'.act = "LinkFrom") => (ents'[1].ptr = 2 /\ ents'[2].ptr = 1)]_vars
+LinkSticks == [][(last'.act = "LinkFrom") => (ents'[last'.i].ptr = last'.j /\ ents'[last'.j].ptr = last'.i)]_vars
 
 \* shared parameters (the whole metadata record) agree on both sides after every action
 SharedEqual == \A i \in Ids : Linked(i) => ents[i].live = ents[ents[i].ptr].live
@@ -448,7 +482,7 @@ WriteThrough == \A i \in Ids : ents[i].file = ents[i].live
 Resolvable == \A i \in Ids :
                  LET q == PKey(ents[i].live, Other(ents[i].role)) IN
                  (ents[i].live.has /\ q # 0) => ents[i].ptr = q
-ReopenResolves == [][(last'.act = "Reopen") => (\A i \in Ids : Linked(i) => ents'[i].ptr = ents[i].ptr)]_vars
+ReopenResolves == [][(last'.act = "Reopen") => (\A i \in Ids : ents[i].ptr # 0 => ents'[i].ptr = ents[i].ptr)]_vars
 
 \* a copy of a linked entity comes with a copy of the partner; the two are linked to each other and to nobody else
 CopiesPaired == \A i \in Ids : (ents[i].src # 0 /\ ents[i].mate # 0) =>
